@@ -3,7 +3,6 @@ package props
 import (
 	"encoding/json"
 	"fmt"
-	"regexp"
 	"strings"
 
 	"verif/harness/gen"
@@ -63,21 +62,16 @@ func init() {
 		}
 		return strings.Contains(fail, "no key") || strings.Contains(fail, "JSON pointer error") || strings.Contains(fail, "dangling")
 	}
-	// A definition of the input whose name contains "OAIGen" and whose body is a bare $ref to a remote
-	// definition is mistaken for a generated conflict-resolution definition (substring test on the
-	// holder key) and merged away by the de-duplication step.
-	Classifiers["oaigen-named-user-alias"] = func(prop string, c interface{}, fail string) bool {
+	// The library recognises the definitions it generated to resolve a name conflict by the substring
+	// "OAIGen" in the key of a $ref holder. A definition or property of the INPUT whose name contains
+	// "OAIGen" is mistaken for one: an alias definition is merged away, or de-duplication is applied
+	// to user schemas and then trips on keys that do not exist.
+	Classifiers["oaigen-substring-in-input-name"] = func(prop string, c interface{}, fail string) bool {
 		fc, ok := c.(*gen.FlattenCase)
-		if !ok {
+		if !ok || !inputHasOAIGenName(fc) {
 			return false
 		}
-		m := oaigenVanished.FindStringSubmatch(fail)
-		if m == nil {
-			return false
-		}
-		body := Obj(Obj(fc.Root["definitions"])[m[1]])
-		ref, isAlias := body["$ref"].(string)
-		return isAlias && len(body) == 1 && !strings.HasPrefix(ref, "#")
+		return strings.Contains(fail, "OAIGen")
 	}
 	// spec.ExpandSpec itself (go-openapi/spec, outside this repository) fails on the bundle: a remote
 	// reference cycle reached from documents in two different directories is rebased twice.
@@ -96,7 +90,29 @@ func init() {
 	}
 }
 
-var oaigenVanished = regexp.MustCompile(`definition "([^"]*OAIGen[^"]*)" (vanished|changed meaning)`)
+func inputHasOAIGenName(c *gen.FlattenCase) bool {
+	found := false
+	var walk func(v J)
+	walk = func(v J) {
+		switch x := v.(type) {
+		case map[string]interface{}:
+			for k, e := range x {
+				if strings.Contains(k, "OAIGen") {
+					found = true
+				}
+				walk(e)
+			}
+		case []interface{}:
+			for _, e := range x {
+				walk(e)
+			}
+		}
+	}
+	for _, d := range c.Docs() {
+		walk(d)
+	}
+	return found
+}
 
 // specExpandFails runs go-openapi/spec's own full expansion on the bundle, in this process.
 func specExpandFails(c *gen.FlattenCase) bool {
